@@ -358,7 +358,8 @@ func run(ci any, r *mon.Rec) {
 			case out.Hung || out.Panic != "":
 				r.Violate(c, "hang", mon.Attrs{"client": clientx.KindName(c.Client), "fc": int(c.FC), "fault": "expired-context"}, "Do with an expired context did not return / panicked: "+out.Panic)
 			case out.Err == nil:
-				// a reply that is already there may still be returned; nothing to classify
+				// the caller had given up before it called: whatever is already waiting on the line, the call does not succeed
+				r.Violate(c, "fault-reported-as-success", mon.Attrs{"client": clientx.KindName(c.Client), "fc": int(c.FC), "fault": "expired-context"}, fmt.Sprintf("context deadline already passed at the call, the complete reply readable at once: returned %T without error", out.Resp))
 			case !errors.Is(out.Err, context.DeadlineExceeded):
 				r.Violate(c, "wrong-error-class", mon.Attrs{"client": clientx.KindName(c.Client), "fc": int(c.FC), "fault": "expired-context"}, fmt.Sprintf("context deadline already passed at the call: want the context's error, got %T: %v", out.Err, out.Err))
 			}
